@@ -1,2 +1,2 @@
 (* C16 proofs: umbrella file *)
-From Gst Require Export C16.Proofs_rank C16.Proofs_lin C16.Proofs_coord C16.Proofs_mirror C16.Proofs_derived C16.Proofs_rot C16.Proofs_session C16.Proofs_migrate.
+From Gst Require Export C16.Proofs_rank C16.Proofs_lin C16.Proofs_coord C16.Proofs_mirror C16.Proofs_derived C16.Proofs_rot C16.Proofs_session C16.Proofs_migrate C16.Proofs_define.
